@@ -894,7 +894,21 @@ class ExprMixin:
     def ev_Dict(self, node):
         if not node.keys:
             return SV(_EMPTY_DICT, None)
-        raise Unsupported("dict literal", node)
+        pairs = [(self.eval(k), self.eval(v)) for k, v in zip(node.keys, node.values)]
+        return self.dict_from_pairs(pairs, node)
+
+    def dict_from_pairs(self, pairs, node=None):
+        kty, vty = pairs[0][0].ty, pairs[0][1].ty
+        for k, v in pairs:
+            if k.ty != kty or v.ty != vty:
+                raise Unsupported("heterogeneous dict literal", node)
+        ty = TDict(kty, vty)
+        d = self.empty_dict(ty)
+        dom, val = ty.dom(d.t), ty.val_(d.t)
+        for k, v in pairs:
+            dom = z3.Store(dom, k.t, True)
+            val = z3.Store(val, k.t, v.t)
+        return SV(ty, ty.mk(dom, val), py=("dictlit", pairs))
 
     def list_append(self, L: SV, x: SV) -> SV:
         ty = L.ty
